@@ -63,6 +63,13 @@ type Op struct {
 	Res  uint8  `json:"res,omitempty"`
 	Dest uint8  `json:"dest,omitempty"`
 	Deps []Dep  `json:"deps,omitempty"`
+	// retry through a handler: how the message channel is read (chan.go).  "" = a channel with room for
+	// everything, emptied when the handler has returned; "unbuf" = unbuffered, a reader receiving all the
+	// time; "late" = unbuffered, the reader comes to its receive only when the handler is parked at the
+	// channel (or has returned) and Delay ms have passed - before EVERY receive; "cap1" = the same reader
+	// on a channel of capacity 1; "full1" = the same, the slot still holding an earlier batch
+	Chan  string `json:"chan,omitempty"`
+	Delay int    `json:"delay_ms,omitempty"`
 	// deliver: proposals handed to the BTC executor
 	Keys []Key `json:"keys,omitempty"`
 	// execok / execfail: the broadcast of delivery number Batch succeeded / failed
@@ -275,28 +282,17 @@ func (v1DepositHandler) HandleDeposit(sourceID, destID uint8, nonce uint64, reso
 
 // ---- driving the real code ---------------------------------------------------------------------
 
-func drain(ch chan []*message.Message) [][]*message.Message {
-	var out [][]*message.Message
-	for {
-		select {
-		case b := <-ch:
-			out = append(out, b)
-		default:
-			return out
-		}
-	}
-}
-
 // doRetry makes one retry request through the chosen entry point and returns what was re-emitted:
 // the messages pushed to the message channel (for "filter": the returned slice, which every caller
 // drops when the error is not nil).  An error of the entry point is an observation, not a crash:
 // the handlers then push nothing, i.e. the whole batch is withheld, and the judge decides.
 func doRetry(ps *store.PropStore, op Op) ([]Dep, string) {
-	ch := make(chan []*message.Message, 64)
 	retryMsg := &message.Message{Source: op.Dest, Destination: op.Src, Data: retry.RetryMessageData{
 		SourceDomainID: op.Src, DestinationDomainID: op.Dest, BlockHeight: big.NewInt(10), ResourceID: resID(op.Res)}}
 	var batches [][]*message.Message
 	var err error
+	// the entry point, given the message channel
+	var call func(ch chan []*message.Message) error
 	switch op.Path {
 	case "filter":
 		var out []*message.Message
@@ -305,28 +301,51 @@ func doRetry(ps *store.PropStore, op Op) ([]Dep, string) {
 			batches = [][]*message.Message{out}
 		}
 	case "evm":
-		h := evmexec.NewRetryMessageHandler(depProc2{op.Src, op.Deps}, evmClient{}, ps, big.NewInt(5), ch)
-		_, err = h.HandleMessage(retryMsg)
-		batches = drain(ch)
+		call = func(ch chan []*message.Message) error {
+			h := evmexec.NewRetryMessageHandler(depProc2{op.Src, op.Deps}, evmClient{}, ps, big.NewInt(5), ch)
+			_, err := h.HandleMessage(retryMsg)
+			return err
+		}
 	case "btc":
-		h := btcexec.NewRetryMessageHandler(depProc1{op.Src, op.Deps}, btcFetcher{}, big.NewInt(5), ps, ch)
-		_, err = h.HandleMessage(retryMsg)
-		batches = drain(ch)
+		call = func(ch chan []*message.Message) error {
+			h := btcexec.NewRetryMessageHandler(depProc1{op.Src, op.Deps}, btcFetcher{}, big.NewInt(5), ps, ch)
+			_, err := h.HandleMessage(retryMsg)
+			return err
+		}
 	case "sub":
-		h := subexec.NewRetryMessageHandler(depProc2{op.Src, op.Deps}, subFetcher{}, ps, ch)
-		_, err = h.HandleMessage(retryMsg)
-		batches = drain(ch)
+		call = func(ch chan []*message.Message) error {
+			h := subexec.NewRetryMessageHandler(depProc2{op.Src, op.Deps}, subFetcher{}, ps, ch)
+			_, err := h.HandleMessage(retryMsg)
+			return err
+		}
 	case "v1":
-		h := eventHandlers.NewRetryV1EventHandler(zerolog.Nop().With(), v1Listener{op.Deps}, v1DepositHandler{}, ps,
-			common.Address{}, op.Src, big.NewInt(5), ch)
-		err = h.HandleEvents(big.NewInt(10), big.NewInt(10))
-		batches = drain(ch)
-		// one batch per destination domain, sent in map order: canonical order = by domain
-		sort.SliceStable(batches, func(i, j int) bool {
-			return len(batches[i]) > 0 && len(batches[j]) > 0 && batches[i][0].Destination < batches[j][0].Destination
-		})
+		call = func(ch chan []*message.Message) error {
+			h := eventHandlers.NewRetryV1EventHandler(zerolog.Nop().With(), v1Listener{op.Deps}, v1DepositHandler{}, ps,
+				common.Address{}, op.Src, big.NewInt(5), ch)
+			return h.HandleEvents(big.NewInt(10), big.NewInt(10))
+		}
 	default:
 		panic("unknown path " + op.Path)
+	}
+	if call != nil {
+		if op.Chan == "" {
+			ch := make(chan []*message.Message, 64)
+			before := goroutineIDs()
+			err = call(ch)
+			batches = collectRest(ch, before)
+		} else {
+			var hung bool
+			batches, err, hung = emitVia(op, call)
+			if hung && err == nil {
+				err = errors.New("the retry entry point did not return")
+			}
+		}
+		if op.Path == "v1" {
+			// one batch per destination domain, sent in map order: canonical order = by domain
+			sort.SliceStable(batches, func(i, j int) bool {
+				return len(batches[i]) > 0 && len(batches[j]) > 0 && batches[i][0].Destination < batches[j][0].Destination
+			})
+		}
 	}
 	var out []Dep
 	for _, b := range batches {
@@ -628,8 +647,94 @@ func gen(r *vgen.Rng, tier string) []Case {
 	out = append(out, genConcCases(r, mult)...)
 	// 6. two operations on the same deposits meeting inside a call (script.go)
 	out = append(out, genScripts(r, mult)...)
+	// 7. the same retry requests on a message channel that is read like the relayer's: unbuffered / one
+	//    slot, the reader not in its receive when the handler gets to its send (chan.go)
+	out = append(out, genChanCases(r, mult)...)
 	if tier == "thorough" {
 		out = append(out, Case{Class: "race", Race: 150})
+	}
+	return out
+}
+
+var chanPaths = []string{"evm", "btc", "sub", "v1"}
+var chanModes = []string{"late", "unbuf", "cap1", "full1"}
+
+// chanBlock: a retried block and a request that selects at least one of its deposits, most of them not
+// recorded executed (so that there is something to re-emit); for RetryV1 the deposits go to 1..3
+// destination domains = as many batches.
+func chanBlock(r *vgen.Rng, path string) (Op, []Entry) {
+	src := uint8(r.Range(1, 2))
+	ds := genBlock(r, r.Range(1, 8))
+	op := retryOp(r, path, src, ds)
+	pick := vgen.Pick(r, ds)
+	op.Res, op.Dest = pick.Res, pick.Dst
+	var init []Entry
+	for _, d := range ds {
+		x := r.Intn(8)
+		if d == pick {
+			x = r.Intn(6) // the request's own deposit is not recorded executed: there is something to re-emit
+		}
+		switch {
+		case x < 2: // missing
+		case x < 4:
+			init = append(init, Entry{Key{src, d.Dst, d.Nonce}, "pending"})
+		case x < 6:
+			init = append(init, Entry{Key{src, d.Dst, d.Nonce}, "failed"})
+		default:
+			init = append(init, Entry{Key{src, d.Dst, d.Nonce}, "executed"})
+		}
+	}
+	return op, init
+}
+
+func genChanCases(r *vgen.Rng, mult int) []Case {
+	var out []Case
+	delays := []int{0, 0, 1, 3, 25, 120}
+	// one retried block: every handler path x every way of reading the channel, without and with a store fault
+	for i := 0; i < 3*mult; i++ {
+		for _, path := range chanPaths {
+			for _, mode := range chanModes {
+				op, init := chanBlock(r, path)
+				op.Chan = mode
+				if mode != "unbuf" {
+					op.Delay = vgen.Pick(r, delays)
+				}
+				out = append(out, Case{Class: "retry-chan", Init: init, Faults: []bool{}, Ops: []Op{op}})
+				ncalls := 2 * len(op.Deps)
+				out = append(out, Case{Class: "retry-chan-fault", Init: init, Faults: faultsAt(ncalls, r.Intn(ncalls)), Ops: []Op{op}})
+			}
+		}
+	}
+	// a reader that stays away for long after the handler got to its send
+	for i, path := range chanPaths {
+		op, init := chanBlock(r, path)
+		op.Chan, op.Delay = "late", 300 // (one slot would hold the only batch of a message handler)
+		if mult > 1 && i%2 == 0 {
+			op.Delay = 1200
+		}
+		out = append(out, Case{Class: "retry-chan-long", Init: init, Faults: []bool{}, Ops: []Op{op}})
+	}
+	// histories whose retries arrive on such channels
+	for i := 0; i < 20*mult; i++ {
+		c := genHistory(r, r.Range(1, 25), vgen.Pick(r, []int{0, 0, 1}), 12)
+		c.Class = "history-chan"
+		some := false
+		for j := range c.Ops {
+			if c.Ops[j].Kind == "retry" && c.Ops[j].Path != "filter" && r.Chance(4, 5) {
+				c.Ops[j].Chan = vgen.Pick(r, chanModes)
+				if c.Ops[j].Chan != "unbuf" {
+					c.Ops[j].Delay = vgen.Pick(r, []int{0, 0, 1, 4})
+				}
+				some = true
+			}
+		}
+		if !some {
+			op, _ := chanBlock(r, vgen.Pick(r, chanPaths))
+			op.Chan = vgen.Pick(r, chanModes)
+			c.Ops = append(c.Ops, op)
+			c.Faults = append(c.Faults, make([]bool, 2*len(op.Deps))...)
+		}
+		out = append(out, c)
 	}
 	return out
 }
@@ -756,6 +861,6 @@ func main() {
 			return false
 		},
 		ShardSize: 150,
-		Rule:      "retried blocks of 0..8 deposits (mixed resources, destinations, stored statuses) through each of the five retry paths with no fault, a fault at each store-call index in turn, and fault pairs; deliveries with a fault at each call index followed by deliveries/completions that need the mutex; released proposals executed twice with success and failure in both orders; random histories of 1..40 retry/deliver/exec-ok/exec-fail operations with random fault schedules; concurrent cases: 2..8 goroutines, each with its own list of 3..10 operations on its own deposit keys (plus shared executed keys and shared non-pending keys that only retries name), its own fault schedule, on ONE PropStore over a backend that uses key and value only after a scheduling point (Gosched / channel hand-off / sleep), under GOMAXPROCS 1, 2, 4 or 16, with one BTC executor per goroutine or one for all; thorough tier: 150 more of them in a child built with the race detector; scripted interleavings: after a prefix history two operations that take the executor's mutex (a delivery's admission, the end - executed / failed - of an older or newer execution of the same proposals, another delivery) are made by two goroutines on ONE executor and store, the first parked before / after each of its store calls in turn while the second is started (1..3 proposals; plus random prefix / pair / parking point / suffix); distinct = distinct input JSON; non-trivial = at least one operation looks a proposal up in the store (concurrent: at least two goroutines do; scripted: the first operation reached its parking point)",
+		Rule:      "retried blocks of 0..8 deposits (mixed resources, destinations, stored statuses) through each of the five retry paths with no fault, a fault at each store-call index in turn, and fault pairs; deliveries with a fault at each call index followed by deliveries/completions that need the mutex; released proposals executed twice with success and failure in both orders; random histories of 1..40 retry/deliver/exec-ok/exec-fail operations with random fault schedules; concurrent cases: 2..8 goroutines, each with its own list of 3..10 operations on its own deposit keys (plus shared executed keys and shared non-pending keys that only retries name), its own fault schedule, on ONE PropStore over a backend that uses key and value only after a scheduling point (Gosched / channel hand-off / sleep), under GOMAXPROCS 1, 2, 4 or 16, with one BTC executor per goroutine or one for all; thorough tier: 150 more of them in a child built with the race detector; scripted interleavings: after a prefix history two operations that take the executor's mutex (a delivery's admission, the end - executed / failed - of an older or newer execution of the same proposals, another delivery) are made by two goroutines on ONE executor and store, the first parked before / after each of its store calls in turn while the second is started (1..3 proposals; plus random prefix / pair / parking point / suffix); message-channel cases: retried blocks of 1..8 deposits (request chosen so that it selects at least one; statuses mixed) through each of the four handler paths on an unbuffered channel read all the time / an unbuffered channel, a channel of capacity 1 and a channel of capacity 1 still holding an earlier batch, whose reader comes to each receive only when the handler is parked or has returned and 0..120 ms (a few: 300 ms) later, without and with a store fault, and random histories whose retries arrive on such channels; distinct = distinct input JSON; non-trivial = at least one operation looks a proposal up in the store (concurrent: at least two goroutines do; scripted: the first operation reached its parking point)",
 	})
 }
